@@ -1,4 +1,5 @@
 import CuriesVerif.Model.Json
+import CuriesVerif.Lemmas.Sort
 
 /-!
 # `parse (render v) = v` for the JSON text model
@@ -416,5 +417,159 @@ theorem parse_render (cfg : Cfg) (l : Nat) (v : JV) (hw : Wf v) : parse (render 
   rw [List.append_nil] at hs
   rw [hs, h]
   rfl
+
+/-! ### `ensure_ascii=True` writes ASCII only -/
+
+theorem hexDigit_lt (d : Nat) (h : d < 16) : hexDigit d < 128 := by
+  unfold hexDigit; split <;> omega
+
+theorem uEsc_ascii (n : Nat) : ∀ c ∈ uEsc n, c < 128 := by
+  intro c hc
+  simp only [uEsc, hex4, List.mem_cons, List.not_mem_nil, or_false] at hc
+  rcases hc with rfl | rfl | rfl | rfl | rfl | rfl
+  · decide
+  · decide
+  all_goals exact hexDigit_lt _ (Nat.mod_lt _ (by decide))
+
+theorem escChar_ascii (c : Nat) : ∀ x ∈ escChar true c, x < 128 := by
+  intro x hx
+  unfold escChar at hx
+  repeat' split at hx
+  all_goals first
+    | (simp only [List.mem_cons, List.not_mem_nil, or_false] at hx; rcases hx with rfl | rfl <;> decide)
+    | exact uEsc_ascii _ x hx
+    | (rcases List.mem_append.mp hx with h | h <;> exact uEsc_ascii _ x h)
+    | (simp only [List.mem_cons, List.not_mem_nil, or_false] at hx; subst hx; simp_all; omega)
+
+theorem renderStr_ascii (s : Str) : ∀ x ∈ renderStr true s, x < 128 := by
+  intro x hx
+  simp only [renderStr, escBody, List.mem_cons, List.mem_append, List.mem_flatMap, List.not_mem_nil, or_false] at hx
+  rcases hx with rfl | ⟨c, _, hc⟩ | rfl
+  · decide
+  · exact escChar_ascii c x hc
+  · decide
+
+theorem nl_ascii (cfg : Cfg) (l : Nat) : ∀ x ∈ nl cfg l, x < 128 := by
+  intro x hx
+  unfold nl at hx
+  cases h : cfg.indent with
+  | none => simp [h] at hx
+  | some k =>
+    simp only [h, List.mem_cons, List.mem_replicate] at hx
+    rcases hx with rfl | ⟨_, rfl⟩ <;> decide
+
+theorem itemSep_ascii (cfg : Cfg) (l : Nat) : ∀ x ∈ itemSep cfg l, x < 128 := by
+  intro x hx
+  unfold itemSep at hx
+  cases h : cfg.indent with
+  | none => simp only [h, List.mem_cons, List.not_mem_nil, or_false] at hx; rcases hx with rfl | rfl <;> decide
+  | some k =>
+    simp only [h, List.mem_cons] at hx
+    rcases hx with rfl | hx
+    · decide
+    · exact nl_ascii cfg l x hx
+
+mutual
+theorem render_ascii (cfg : Cfg) (h : cfg.ascii = true) : ∀ (v : JV) (l : Nat), ∀ x ∈ render cfg l v, x < 128
+  | .null, _ => by intro x hx; simp only [render, List.mem_cons, List.not_mem_nil, or_false] at hx; rcases hx with rfl | rfl | rfl | rfl <;> decide
+  | .bool true, _ => by intro x hx; simp only [render, List.mem_cons, List.not_mem_nil, or_false] at hx; rcases hx with rfl | rfl | rfl | rfl <;> decide
+  | .bool false, _ => by
+    intro x hx; simp only [render, List.mem_cons, List.not_mem_nil, or_false] at hx
+    rcases hx with rfl | rfl | rfl | rfl | rfl <;> decide
+  | .str s, _ => by intro x hx; rw [render, h] at hx; exact renderStr_ascii s x hx
+  | .arr [], _ => by intro x hx; simp only [render, List.mem_cons, List.not_mem_nil, or_false] at hx; rcases hx with rfl | rfl <;> decide
+  | .arr (y :: ys), l => by
+    intro x hx
+    rw [render] at hx
+    simp only [List.mem_cons, List.mem_append, List.not_mem_nil, or_false] at hx
+    rcases hx with rfl | hx | hx | hx | hx | rfl
+    · decide
+    · exact nl_ascii cfg _ x hx
+    · exact render_ascii cfg h y (l + 1) x hx
+    · exact renderElems_ascii cfg h ys (l + 1) x hx
+    · exact nl_ascii cfg _ x hx
+    · decide
+  | .obj [], _ => by intro x hx; simp only [render, List.mem_cons, List.not_mem_nil, or_false] at hx; rcases hx with rfl | rfl <;> decide
+  | .obj ((k, v) :: kvs), l => by
+    intro x hx
+    rw [render] at hx
+    simp only [keySep, List.mem_cons, List.mem_append, List.not_mem_nil, or_false] at hx
+    rcases hx with rfl | hx | hx | (rfl | rfl) | hx | hx | hx | rfl
+    · decide
+    · exact nl_ascii cfg _ x hx
+    · rw [h] at hx; exact renderStr_ascii k x hx
+    · decide
+    · decide
+    · exact render_ascii cfg h v (l + 1) x hx
+    · exact renderMembers_ascii cfg h kvs (l + 1) x hx
+    · exact nl_ascii cfg _ x hx
+    · decide
+theorem renderElems_ascii (cfg : Cfg) (h : cfg.ascii = true) : ∀ (xs : List JV) (l : Nat), ∀ x ∈ renderElems cfg l xs, x < 128
+  | [], _ => by intro x hx; simp [renderElems] at hx
+  | y :: ys, l => by
+    intro x hx
+    simp only [renderElems, List.mem_append] at hx
+    rcases hx with hx | hx | hx
+    · exact itemSep_ascii cfg l x hx
+    · exact render_ascii cfg h y l x hx
+    · exact renderElems_ascii cfg h ys l x hx
+theorem renderMembers_ascii (cfg : Cfg) (h : cfg.ascii = true) : ∀ (kvs : List (Str × JV)) (l : Nat),
+    ∀ x ∈ renderMembers cfg l kvs, x < 128
+  | [], _ => by intro x hx; simp [renderMembers] at hx
+  | (k, v) :: kvs, l => by
+    intro x hx
+    simp only [renderMembers, keySep, List.mem_append, List.mem_cons, List.not_mem_nil, or_false] at hx
+    rcases hx with hx | hx | (rfl | rfl) | hx | hx
+    · exact itemSep_ascii cfg l x hx
+    · rw [h] at hx; exact renderStr_ascii k x hx
+    · decide
+    · decide
+    · exact render_ascii cfg h v l x hx
+    · exact renderMembers_ascii cfg h kvs l x hx
+end
+
+/-! ### `sort_keys=True` -/
+
+theorem wfMembers_iff (l : List (Str × JV)) : WfMembers l ↔ ∀ kv ∈ l, (∀ c ∈ kv.1, Scalar c) ∧ Wf kv.2 := by
+  induction l with
+  | nil => simp [WfMembers]
+  | cons kv l ih =>
+    obtain ⟨k, v⟩ := kv
+    simp only [WfMembers, ih, List.mem_cons, forall_eq_or_imp]
+    constructor
+    · rintro ⟨h1, h2, h3⟩; exact ⟨⟨h1, h2⟩, h3⟩
+    · rintro ⟨⟨h1, h2⟩, h3⟩; exact ⟨h1, h2, h3⟩
+
+mutual
+theorem wf_sortKeys : ∀ (v : JV), Wf v → Wf v.sortKeys
+  | .null, h => by simpa [JV.sortKeys] using h
+  | .bool _, h => by simpa [JV.sortKeys] using h
+  | .str _, h => by simpa [JV.sortKeys] using h
+  | .arr xs, h => by
+    simp only [JV.sortKeys, Wf] at h ⊢
+    exact wfList_sortKeys xs h
+  | .obj kvs, h => by
+    simp only [JV.sortKeys, Wf] at h ⊢
+    rw [wfMembers_iff]
+    intro kv hkv
+    have := (wfMembers_iff _).mp (wfMembers_sortKeys kvs h)
+    exact this kv ((mem_isort _ _ _).mp hkv)
+theorem wfList_sortKeys : ∀ (xs : List JV), WfList xs → WfList (sortKeysList xs)
+  | [], _ => by simp [sortKeysList, WfList]
+  | x :: xs, h => by
+    simp only [sortKeysList, WfList] at h ⊢
+    exact ⟨wf_sortKeys x h.1, wfList_sortKeys xs h.2⟩
+theorem wfMembers_sortKeys : ∀ (kvs : List (Str × JV)), WfMembers kvs → WfMembers (sortKeysMembers kvs)
+  | [], _ => by simp [sortKeysMembers, WfMembers]
+  | (k, v) :: kvs, h => by
+    simp only [sortKeysMembers, WfMembers] at h ⊢
+    exact ⟨h.1, wf_sortKeys v h.2.1, wfMembers_sortKeys kvs h.2.2⟩
+end
+
+/-- **JSON round trip with `sort_keys=True`.** What is written with sorted keys reads back as the value with its
+members sorted, at every depth. -/
+theorem parse_render_sortKeys (cfg : Cfg) (l : Nat) (v : JV) (hw : Wf v) :
+    parse (render cfg l v.sortKeys) = some v.sortKeys :=
+  parse_render cfg l v.sortKeys (wf_sortKeys v hw)
 
 end JsonText
